@@ -17,7 +17,7 @@ from sa.flow import Interp
 RESOLVER = "lowlevel.api_async.backend._common.dns_resolver:BaseAsyncDNSResolver"
 
 CLAIM = {
-    "text": "Decides, on every path of every socket-creating function (normal return, OSError, any other Exception, cancellation at any await, any other BaseException), that each created or received socket is closed, returned, or transferred to the single winner slot under an emptiness test; that the slot's owner closes a stored winner on every exit that does not return it; that the race returns only the slot and cancels the remaining attempts on the first success. This is the whole all-paths ownership content of the property; it is decided for all completion orders at once because other tasks can only run at suspension points, which the rule quantifies over. Also decided: the resolved remote and local address lists reach the implementation unchanged from the public entry points (every binding is ensure_resolved() or None); the list the race loop iterates over is derived from the resolved address list through element-preserving transformations only and one attempt is started per element; the pending connector stays registered in the client while the race is awaited, so aclose() can cancel it; the race winner handed to AsyncTLSStreamTransport.wrap is closed on every exception exit including cancellation (ownership typestate of C14). wrap_stream_socket() runs no check that can raise for a network reason before the event loop takes the race winner over; the blocking client's constructor closes the connected socket when its remaining steps fail. Round 4: every iteration of the sequential attempt loop returns the socket or records an OSError before moving on; the adapter built around the loop's transport makes no socket system call in its constructor. Round 5: the client constructor validates max_recv_size exactly as the endpoint does (no failure after the race); a per-attempt non-blocking connect treats only BlockingIOError / InterruptedError as in-progress; wrap() closes the winner also when the SSL object cannot be created (finding F9, fixed).",
+    "text": "Decides, on every path of every socket-creating function (normal return, OSError, any other Exception, cancellation at any await, any other BaseException), that each created or received socket is closed, returned, or transferred to the single winner slot under an emptiness test; that the slot's owner closes a stored winner on every exit that does not return it; that the race returns only the slot and cancels the remaining attempts on the first success. This is the whole all-paths ownership content of the property; it is decided for all completion orders at once because other tasks can only run at suspension points, which the rule quantifies over. Also decided: the resolved remote and local address lists reach the implementation unchanged from the public entry points (every binding is ensure_resolved() or None); the list the race loop iterates over is derived from the resolved address list through element-preserving transformations only and one attempt is started per element; the pending connector stays registered in the client while the race is awaited, so aclose() can cancel it; the race winner handed to AsyncTLSStreamTransport.wrap is closed on every exception exit including cancellation (ownership typestate of C14). wrap_stream_socket() runs no check that can raise for a network reason before the event loop takes the race winner over; the blocking client's constructor closes the connected socket when its remaining steps fail. Round 4: every iteration of the sequential attempt loop returns the socket or records an OSError before moving on; the adapter built around the loop's transport makes no socket system call in its constructor. Round 5: the client constructor validates max_recv_size exactly as the endpoint does (no failure after the race); a per-attempt non-blocking connect treats only BlockingIOError / InterruptedError as in-progress; wrap() closes the winner also when the SSL object cannot be created (finding F9, fixed). Round 6: between the end of the race and the hand-off to wrap_stream_socket() nothing is called on the winner outside a block that closes it; the client's best-effort option setters swallow every OSError; the winner slot may be a field of a private record (default None) shared by the attempts.",
     "note": "Trusted: close() releases the descriptor; list/set/Event operations and exception constructors do not raise (sa/tables.py); cancellation is only delivered at await / async with / async for. Not decided: which attempt wins; OS-level release.",
     "technique": "ownership typestate by abstract interpretation over an exception-aware structured CFG (ast), with an exception-class lattice; winner-slot may-be-full analysis over suspension points",
 }
